@@ -1,6 +1,8 @@
 package c16
 
 import (
+	"crypto/elliptic"
+	"github.com/nspcc-dev/neo-go/pkg/crypto/keys"
 	"sort"
 
 	"github.com/nspcc-dev/neo-go/pkg/config"
@@ -121,7 +123,25 @@ func (v *env) sysCases() ([]*sysCase, []string, error) {
 			emit.Array(w, make([]byte, 64))
 			emit.Array(w, userPub)
 			emit.Syscall(w, interopnames.SystemCryptoCheckMultisig)
-		}, nil}},
+		}, nil},
+			// several signatures (the parallel matcher) and a key that has the form of
+			// a compressed point but is not on the curve, in each position: a FAULT of
+			// this execution, never the end of the process
+			{"two-sigs-malformed-first-key", false, func(w *io.BinWriter) {
+				emit.Array(w, make([]byte, 64), make([]byte, 64))
+				emit.Array(w, offCurveKey(), userPub)
+				emit.Syscall(w, interopnames.SystemCryptoCheckMultisig)
+			}, nil},
+			{"two-sigs-malformed-last-key", false, func(w *io.BinWriter) {
+				emit.Array(w, make([]byte, 64), make([]byte, 64))
+				emit.Array(w, userPub, offCurveKey())
+				emit.Syscall(w, interopnames.SystemCryptoCheckMultisig)
+			}, nil},
+			{"three-sigs-malformed-middle-key", false, func(w *io.BinWriter) {
+				emit.Array(w, make([]byte, 64), make([]byte, 64), make([]byte, 64))
+				emit.Array(w, userPub, offCurveKey(), userPub, userPub)
+				emit.Syscall(w, interopnames.SystemCryptoCheckMultisig)
+			}, nil}},
 		interopnames.SystemIteratorNext: {{"after-find", false, func(w *io.BinWriter) {
 			emit.Int(w, 0)
 			emit.Bytes(w, []byte("se"))
@@ -254,4 +274,16 @@ func (v *env) sysCases() ([]*sysCase, []string, error) {
 		}
 	}
 	return res, bare, nil
+}
+
+// offCurveKey returns 33 bytes that look like a compressed P-256 point whose X
+// has no point on the curve.
+func offCurveKey() []byte {
+	for x := byte(1); ; x++ {
+		k := make([]byte, 33)
+		k[0], k[32] = 2, x
+		if _, err := keys.NewPublicKeyFromBytes(k, elliptic.P256()); err != nil {
+			return k
+		}
+	}
 }
